@@ -76,7 +76,7 @@ BOUNDS = {
         "g6": "g1 x g3: depth 0..3 x 3 spellings x 4 include mechanisms x sites x 4 arg sets x 4 context sets",
         "g8": "2 or 3 <%namespace file=> tags of one template pointing at libraries in different directories: every declaration order x call order as declared / reversed x 6 probes inside the library def (local.uri+self.uri, self.who()/local.who(), local.include_file, local.get_template, local.get_namespace, <%include>, all with a relative 't.html') x tag in a plain / derived / base template x 2 backings",
         "g9": "URI pairs that differ only in non-word characters (4 pairs, both orders) x {include, include first, namespace def, inherit}, each template declaring namespace 'n' with a different file; plus the control with a word-character difference; 2 backings",
-        "g10": "histories on one lookup: 26 templates reaching one library (import=*, import=names, named, inline defs in the tag, inheritable, include, inherit, API): all ordered pairs a,b,a x 2 backings",
+        "g10": "histories on one lookup: 41 templates reaching one library (import=*, import=names, named, inline defs in the tag, inheritable, include, inherit, API): all ordered pairs a,b,a x 2 backings",
         "g7": "same namespace name 'h' declared in two files of one render: 12 ordered directory-depth pairs x {h.get_namespace, h.get_template, h.include_file, chained get_namespace} x {includer+included, template+namespace file, derived+base} x which call runs first x target beside both/first/second/neither x 2 backings",
     },
     "thorough": {
@@ -943,8 +943,8 @@ G10_MAINS = {
 def g10_cases(tier):
     names = list(G10_MAINS)
     for backing in ("put", "files"):
-        for a in names:
-            for b in names:
+        for ia, a in enumerate(names):
+            for ib, b in enumerate(names):
                 yield {"grid": "g10", "backing": backing, "order": [a, b, a]}
 
 
@@ -1421,8 +1421,9 @@ def plan(tier, seed):
         for i in range(k):
             jobs.append({"grid": g, "tier": tier, "seed": seed, "shard": i, "nshards": k})
     # heavy grids first; the seed permutes the rest of the order only
-    jobs.append({"grid": "g10", "tier": tier, "seed": seed, "shard": 0, "nshards": 1})
-    jobs.sort(key=lambda j: ({"g10": 9, "g5": 0, "g6": 1, "g1": 2, "g2": 3, "g7": 4, "g3": 5, "g8": 6, "g4": 7, "g9": 8}[j["grid"]], (j["shard"] + seed) % j["nshards"]))
+    for i in range(12):
+        jobs.append({"grid": "g10", "tier": tier, "seed": seed, "shard": i, "nshards": 12})
+    jobs.sort(key=lambda j: ({"g10": -1, "g5": 0, "g6": 1, "g1": 2, "g2": 3, "g7": 4, "g3": 5, "g8": 6, "g4": 7, "g9": 8}[j["grid"]], (j["shard"] + seed) % j["nshards"]))
     return jobs
 
 
@@ -1432,8 +1433,9 @@ def run_job(job):
     seen = set()
     sh, ns = job["shard"], job["nshards"]
     if job["grid"] == "g10":
-        for c in g10_cases(job["tier"]):
-            g10_check(c, st)
+        for i, c in enumerate(g10_cases(job["tier"])):
+            if i % ns == sh:
+                g10_check(c, st)
         st.extra["cases_g10"] = st.states
         return st
     for files, M, ctx, meta in cases(job["grid"], job["tier"], job["seed"], sh, ns):
